@@ -21,7 +21,7 @@
 (* m indexes Mux: a sequence of <<idx, sub>> (existing and missing ones).  *)
 (***************************************************************************)
 EXTENDS CoSsdo, TLC, Json, SequencesExt
-CONSTANTS Dict, Mux, Letters, NodeId, Walk, WalkLen, ProbeKind, PumpN, ProbeReset
+CONSTANTS Dict, Mux, Letters, NodeId, Walk, WalkLen, ProbeKind, PumpN, ProbeReset, ProbeB
 VARIABLES s, d, tid, sync, hist, prev, ok, lastl
 vars == <<s, d, tid, sync, hist, prev, ok, lastl>>
 \* sync = FALSE while the reference does not know the server's state (after a
@@ -150,6 +150,11 @@ ProbeFrom(ss, dd, t, sy) ==
   \* afterwards, a confirmed one may not), then the continuation, then the content again
   IN <<DumpStep(dv, 1), DumpStep(dv, 4), DumpStep(dv, 5), DumpStep(dv, 9)>> \o a.steps \o <<DumpStep(a.d, 4)>> \o (IF ProbeKind = "full" THEN <<DumpStep(a.d, 1), DumpStep(a.d, 5)>> ELSE <<>>)
 Probe == ProbeFrom(s, d, tid, sync)
+\* second characterisation sequence, WITHOUT a client abort in front: a client that gave up a transfer (its abort
+\* frame may be lost) simply starts the next one; implementation state that only the abort path resets shows here
+ProbeNoAbort ==
+  LET a == RunLetters(s, d, tid, SubSeq(CleanSeq(tid), 1, 6) \o << <<"blkdl", 5, 30>>, <<"bseg", 1, FALSE>>, <<"bseg", 2, FALSE>>, <<"bseg", 3, FALSE>>, <<"bseg", 1, FALSE>>, <<"bseg", 2, TRUE>>, <<"bend", 5>>, <<"blkul", 5, 2>>, <<"bstart">>, <<"back", 2, 3>>, <<"back", 3, 3>>, <<"bfin">> >>, sync, <<>>)
+  IN a.steps \o <<DumpStep(a.d, 4), DumpStep(a.d, 5)>>
 \* pumping: a letter that leaves the control state unchanged is repeated PumpN times, then the probe
 PumpRec == LET ls == [i \in 1..PumpN |-> lastl]
                a == RunLetters(s, d, tid, ls, sync, <<>>)
@@ -164,6 +169,7 @@ InvNoWedge ==
 
 Cfg == [n |-> NodeId, k |-> SegMax]
 EmitEdge == hist = <<>> \/ (/\ PrintT(<<"EDGE", ToJson([c |-> Cfg, s |-> prev, e |-> hist[Len(hist)], d |-> View, p |-> Probe])>>)
+                            /\ (~ProbeB \/ ~sync \/ PrintT(<<"EDGE", ToJson([c |-> Cfg, s |-> prev, h |-> <<hist[Len(hist)]>>, d |-> View, p |-> ProbeNoAbort])>>))
                             /\ (PumpN = 0 \/ prev # View \/ IsInit(lastl) \/ PrintT(<<"EDGE", ToJson(PumpRec)>>)))
 EmitWalk == Len(hist) < WalkLen \/ (PrintT(<<"WALK", ToJson([c |-> Cfg, h |-> hist, p |-> Probe])>>) /\ FALSE)
 =============================================================================
